@@ -120,6 +120,36 @@ theorem sumD_int_exact (lo hi : Int) : ∀ (l : List Rat), (∀ x ∈ l, x.den =
     rw [hnum, wrap_of_mem lo hi _ h0.2.1 h0.2.2]
     exact intCast_of_den_one _ h0.1
 
+/-- sum of the numerators -/
+def sumZ (l : List Rat) : Int := (l.map (·.num)).foldr (· + ·) 0
+
+/-- wrap-around is a ring morphism: the wrapped sum of integers is the wrap of their exact sum, whatever the
+intermediate overflows -/
+theorem sumD_int_eq_wrap (lo hi : Int) (h0 : lo ≤ 0 ∧ 0 ≤ hi) : ∀ (l : List Rat),
+    sumD (.int lo hi) l = ((wrap lo hi (sumZ l) : Int) : Rat)
+  | [] => by
+    simp only [sumD_nil, sumZ, List.map_nil, List.foldr_nil]
+    rw [wrap_of_mem lo hi 0 h0.1 h0.2]; rfl
+  | x :: xs => by
+    rw [sumD_cons, sumD_int_eq_wrap lo hi h0 xs]
+    simp only [DType.add, Rat.num_intCast]
+    rw [wrap_add_wrap]
+    rfl
+
+theorem sumR_of_integral : ∀ (l : List Rat), (∀ x ∈ l, x.den = 1) → sumR l = ((sumZ l : Int) : Rat)
+  | [], _ => rfl
+  | x :: xs, h => by
+    rw [sumR_cons, sumR_of_integral xs (fun y hy => h y (by simp [hy]))]
+    have e1 := intCast_of_den_one x (h x (by simp))
+    show x + ((sumZ xs : Int) : Rat) = ((x.num + sumZ xs : Int) : Rat)
+    rw [Rat.intCast_add, e1]
+
+/-- **only the total has to fit**: if the exact sum of the stored integers lies in the range of the dtype, the wrapped
+sum is the exact sum — intermediate overflows cancel -/
+theorem sumD_int_exact_total (lo hi : Int) (h0 : lo ≤ 0 ∧ 0 ≤ hi) (l : List Rat) (hint : ∀ x ∈ l, x.den = 1)
+    (hfit : lo ≤ sumZ l ∧ sumZ l ≤ hi) : sumD (.int lo hi) l = sumR l := by
+  rw [sumD_int_eq_wrap lo hi h0, wrap_of_mem lo hi _ hfit.1 hfit.2, sumR_of_integral l hint]
+
 /-! ### the conversions keep the stored values of every position -/
 
 theorem cell_csr_eq (nCol : Nat) (rows : Rows) (i j : Nat) :
